@@ -17,6 +17,7 @@ The two parts fail separately (`{"extraction_failed": …}` per part): a change 
 (alphabetical order), whose `Src.resolve` the canonicalisers call."""
 from __future__ import annotations
 
+import json
 import os
 
 KEY = "translated_rel"
@@ -60,14 +61,38 @@ def extract(repo: str) -> dict:
     return out
 
 
+def _runner(name: str, t: dict | None, monad: bool, cvs: list[str] | None = None) -> str:
+    """`Src.<name>_run`: the translation applied BY NAME — externals through one table function `ext`, value arguments as a list — so that the
+    evaluator `Run/SrcEvalRel.lean` does not depend on which externals / ContextVar parameters the current source still uses (a change that
+    removes one changes the signature of `Src.<name>`); `none` = another number of arguments, or this part could not be translated"""
+    ty = "Rbacx.PyR.M PyVal" if monad else "Except CondErr PyVal"
+    cvdecl = " (rel_checker : Rbacx.PyR.Checker) (eval_loop : PyVal)" if cvs is not None else ""
+    head = (f"/-- `{name}` applied by name (for the evaluator Run/SrcEvalRel.lean) -/\n"
+            f"def {name}_run (o : Oracle) (ext : String → List PyVal → Except CondErr PyVal){cvdecl} (args : List PyVal) : Option ({ty}) :=\n")
+    if t is None:
+        return head + "  let _ := o; let _ := ext; let _ := args; none\n"
+    n = len(t["args"] if "args" in t else t["params"])
+    exts = []
+    for x, arity in t["externals"]:
+        xs = [f"x{i}" for i in range(arity)]
+        exts.append(f"(fun {' '.join(xs)} => ext {json.dumps(x)} [{', '.join(xs)}])")
+    vals = [f"a{i}" for i in range(n)]
+    call = " ".join([name] + (["o"] if t["oracle"] else []) + exts + (list(t.get("cvparams") or []) if cvs is not None else []) + vals)
+    return head + f"  let _ := o; let _ := ext\n  match args with\n  | [{', '.join(vals)}] => some ({call})\n  | _ => none\n"
+
+
 def render(f: dict) -> str:
     parts = []
     pd, rel = f["parse_dt"], f["rel"]
-    parts.append(f"-- extraction of _parse_dt failed: {pd['extraction_failed']}\n" if "extraction_failed" in pd else pd["lean"])
+    parts.append("-- extraction of _parse_dt failed: " + " ".join(str(pd["extraction_failed"]).split()) + "\n" if "extraction_failed" in pd else pd["lean"])
+    parts.append(_runner("parse_dt", None if "extraction_failed" in pd else pd, False))
     if "extraction_failed" in rel:
-        parts.append(f"-- extraction of the rel branch failed: {rel['extraction_failed']}\n")
+        parts.append("-- extraction of the rel branch failed: " + " ".join(str(rel["extraction_failed"]).split()) + "\n")
+        parts += [_runner("canon_subject", None, False), _runner("canon_resource", None, False), _runner("rel_range", None, True, [])]
     else:
-        parts += [rel["canon_subject"]["lean"], rel["canon_resource"]["lean"], rel["rel_range"]["lean"]]
+        parts += [rel["canon_subject"]["lean"], rel["canon_resource"]["lean"], rel["rel_range"]["lean"],
+                  _runner("canon_subject", rel["canon_subject"], False), _runner("canon_resource", rel["canon_resource"], False),
+                  _runner("rel_range", rel["rel_range"], True, rel["rel_range"]["cvparams"])]
     return ("/-! C04 / C13: `_parse_dt`, `_canon_subject`, `_canon_resource` and the `rel` branch of `eval_condition` (core/policy.py) as the source has "
             "them now (harness/pytolean_rel.py) -/\n"
             "namespace Src\n\n" + "\n".join(parts) + "\nend Src\n")
